@@ -49,7 +49,7 @@ def gen_steps(rng, keys, source):
 def run(ctx):
     rng = ctx.rng
     jobs = []
-    for it in range(ctx.n(1500, 60000)):
+    for it in range(ctx.n(3000, 400000)):
         fn = rng.choice(["II", "OO", "IO", "LL", "fs", "OI", "IF"])
         kind = rng.choice(["BTree", "TreeSet", "Bucket", "Set", "BTree", "TreeSet"])
         impl = rng.choice(["C", "C", "Py"])
